@@ -139,32 +139,38 @@ func c34Scenarios() []*c34Scenario {
 			name: "two-v4",
 			ops: c34Cat([]c34Op{c34Upd("v4a"), c34Upd("v4b"), c34Upd("v4a", "v4b"), c34Upd("v4b", "v4a", "v4b"), c34Upd(), c34OpRErrV},
 				c34SCOps("v4a", "v4b"), []c34Op{c34OpTimerV, c34OpExitIdleV, c34OpPickV}),
-			depthQ: 6, depthT: 8, minState: 200,
+			depthQ: 8, depthT: 11, minState: 200,
 		},
 		{ // two families, three addresses, interleaving changes the order; endpoints form with a cross-endpoint duplicate
 			name: "dual-stack-3",
 			ops: c34Cat([]c34Op{c34Upd("v4a", "v4b", "v6a"), c34UpdE([]string{"v6a", "v4a"}, []string{"v4b", "v6a"}), c34Upd("v6a")},
 				c34SCOps("v4a", "v4b", "v6a"), []c34Op{c34OpTimerV, c34OpExitIdleV}),
-			depthQ: 6, depthT: 8, minState: 200,
+			depthQ: 8, depthT: 11, minState: 200,
 		},
 		{ // the same three addresses, starting after a complete failed pass (sticky TF, steady-state retries)
 			name: "dual-stack-3-after-failed-pass",
 			pre:  []string{"update[v4a,v4b,v6a]", "v4a.connecting", "v4a.tf", "v6a.connecting", "v6a.tf", "v4b.connecting", "v4b.tf"},
 			ops: c34Cat([]c34Op{c34Upd("v4a", "v4b", "v6a"), c34Upd("v6a", "v4b"), c34OpRErrV},
 				c34SCOps("v4a", "v4b", "v6a"), []c34Op{c34OpTimerV}),
-			depthQ: 5, depthT: 7, minState: 100,
+			depthQ: 7, depthT: 10, minState: 100,
 		},
 		{ // IPv6 first, second IPv6 address, endpoints form with several addresses per endpoint, shuffled list
 			name: "v6-first",
 			ops: c34Cat([]c34Op{c34UpdE([]string{"v6a", "v6b"}, []string{"v4a"}), c34UpdShuffled("v4a", "v6b", "v6a"), c34Upd("v6b", "v6b", "v4a")},
 				c34SCOps("v6a", "v6b", "v4a"), []c34Op{c34OpTimerV}),
-			depthQ: 5, depthT: 7, minState: 100,
+			depthQ: 7, depthT: 10, minState: 100,
+		},
+		{ // steady-state retry mode with two subchannels (A61: TF is reported again after every 2 further failures)
+			name: "two-v4-steady-state-retries",
+			pre:  []string{"update[v4a,v4b]", "v4a.connecting", "v4a.tf", "v4b.connecting", "v4b.tf", "v4a.idle", "v4a.connecting", "v4b.idle", "v4b.connecting"},
+			ops:  c34Cat([]c34Op{c34Upd("v4a", "v4b"), c34OpRErrV}, c34SCOps("v4a", "v4b"), []c34Op{c34OpTimerV}),
+			depthQ: 8, depthT: 11, minState: 50,
 		},
 		{ // stale (in-flight) updates of subchannels the balancer has already shut down
 			name: "stale-updates",
 			ops: c34Cat([]c34Op{c34Upd("v4a"), c34Upd("v4b"), c34Upd("v4a", "v4b")},
 				c34SCOps("v4a", "v4b"), c34DeadOps(), []c34Op{c34OpTimerV}),
-			depthQ: 6, depthT: 7, useDead: true, minState: 200,
+			depthQ: 8, depthT: 10, useDead: true, minState: 200,
 		},
 	}
 }
@@ -368,7 +374,7 @@ func (w *c34World) key(useDead bool) string {
 		d := w.lastDead
 		fmt.Fprintf(&sb, "D=%s/%v/p=%v/g=%v", d.name, d.state, d.connectPending, d.gone)
 	}
-	fmt.Fprintf(&sb, "|M:%s,sticky=%v,order=%s,rep=%v,S=%v,", c34PhaseName[w.phase], w.sticky, strings.Join(w.order, ","), w.reported, w.S)
+	fmt.Fprintf(&sb, "|M:%s,sticky=%v,order=%s,rep=%v,S=%v,rf=%d/%d,", c34PhaseName[w.phase], w.sticky, strings.Join(w.order, ","), w.reported, w.S, w.refreshK, w.refreshN)
 	if w.readySC != nil {
 		sb.WriteString("ready=" + scRef(w.readySC) + ",")
 	}
@@ -564,6 +570,7 @@ func TestVerif_C34_PickFirst(t *testing.T) {
 	col := &c34Collector{found: map[string]*c34Found{}}
 	reported := map[string]bool{}
 	var connects, picks int64
+	distinct := map[string]bool{}
 	var cmu sync.Mutex
 	for _, sc := range scenarios {
 		pre, err := c34OpIndex(sc, sc.pre)
@@ -577,11 +584,16 @@ func TestVerif_C34_PickFirst(t *testing.T) {
 		}
 		seqx.BFS(r, []string{P}, seqx.Config{
 			Name: sc.name, Ops: names, MaxDepth: r.Pick(sc.depthQ, sc.depthT), Parallel: 16,
-			Congruence: r.Thorough(), CongruenceMax: 300, MinStates: sc.minState,
+			Congruence: r.Thorough(), CongruenceMax: 300,
 			Run: func(hist []int) seqx.Outcome {
 				res := c34Bubble(t, sc, pre, hist)
 				if res.skip && len(res.fails) == 0 {
 					return seqx.Outcome{Skip: true}
+				}
+				if len(res.fails) == 0 {
+					cmu.Lock()
+					distinct[sc.name+"\x00"+res.key] = true
+					cmu.Unlock()
 				}
 				for _, f := range res.fails {
 					col.add(sc, hist, f)
@@ -605,6 +617,17 @@ func TestVerif_C34_PickFirst(t *testing.T) {
 		}
 		sort.Strings(classes)
 		col.mu.Unlock()
+		// vacuity guard (own one: a violation makes its state terminal, so a
+		// violating tree legitimately explores little)
+		nStates := int64(0)
+		for k := range distinct {
+			if strings.HasPrefix(k, sc.name+"\x00") {
+				nStates++
+			}
+		}
+		if len(col.found) == 0 && nStates < sc.minState {
+			r.EngineError("scenario %s: vacuous exploration: %d violation-free states < %d", sc.name, nStates, sc.minState)
+		}
 		for _, c := range classes {
 			reported[c] = true
 			f := col.found[c]
